@@ -335,7 +335,7 @@ def m_obj_find(ex, callee, args):
     return ex.call_mir(f, args)
 
 
-@model(r'^<dyn Object as Object>::get$|^<Self as Object>::get$|^<dyn value::Object as value::Object>::get$')
+@model(r'^<.* as (value::)?Object>::get$')
 def m_obj_get(ex, callee, args):
     t = deref_all(args[0])
     key = as_str(args[1])
@@ -350,7 +350,22 @@ def m_obj_get(ex, callee, args):
     h = getattr(t, 'object_get', None)
     if h is not None:
         return h(ex, key)
+    f = ex.prog.resolve_call(callee)
+    if f is not None:
+        return ex.call_mir(f, args)
     raise Unsupported('Object::get on %r' % (t,))
+
+
+@model(r'^<V as (value::)?AsValue>::as_value$|^<.* as (value::)?AsValue>::as_value$')
+def m_generic_as_value(ex, callee, args):
+    from .doc import CellRef
+    v = deref_all(args[0])
+    if isinstance(v, CellRef):
+        return v.cell.value()
+    f = ex.prog.resolve_call(callee)
+    if f is not None:
+        return ex.call_mir(f, args)
+    raise Unsupported('as_value() on %r' % (v,))
 
 
 @model(r'^<dyn (value::)?Array as (value::)?Array>::iter$')
